@@ -48,11 +48,14 @@ GENETIC_CODE = {a + b + c: _GC_AAS[16 * i + 4 * j + k]
 SENSE_CODONS = sorted(c for c, a in GENETIC_CODE.items() if a != "*")
 assert len(SENSE_CODONS) == 61 and GENETIC_CODE["ATG"] == "M" and GENETIC_CODE["TGG"] == "W"
 assert sorted(c for c, a in GENETIC_CODE.items() if a == "*") == ["TAA", "TAG", "TGA"]
+# NCBI table 2 (vertebrate mitochondrial): AGA, AGG stop; ATA Met; TGA Trp
+_VERT_MITO = dict(GENETIC_CODE, AGA="*", AGG="*", ATA="M", TGA="W")
+CODES = {1: GENETIC_CODE, 2: _VERT_MITO}
 
 
 # ----------------------------------------------------------------------------------------------- trees
 def parse_newick(text):
-    """-> nested dict {name, length, children}; every node must be named except the root"""
+    """-> nested dict {name, length, children}"""
     s = text.strip()
     assert s.endswith(";"), text
     s = s[:-1]
@@ -88,6 +91,11 @@ def parse_newick(text):
     assert pos == len(s), (text, pos)
     if not root["name"]:
         root["name"] = "root"
+    anon = 0
+    for n in nodes(root):
+        if not n["name"]:
+            n["name"] = f"_anon{anon}"      # unnamed internal node: no rule can refer to it
+            anon += 1
     return root
 
 
@@ -132,21 +140,53 @@ def scope_edges(tree, a, b, clade=True, stem=False):
     return out
 
 
+def scope_edges_outgroup(tree, a, b, outgroup, clade=True, stem=False):
+    """the tree read as unrooted: the clade of (a, b) is the smallest side of an edge that holds a and b but
+    not the outgroup tip; that edge is the stem, the edges inside the side are the clade.
+    -> (edge names, ambiguous) ; ambiguous when the edge is one of the two edges at a bifurcating root
+    (they are one edge of the unrooted tree, the statement does not say which name stands for it)"""
+    every = nodes(tree)
+    alltips = set(tip_names(tree))
+    best = None
+    for n in every[1:]:
+        below = _tips_below(n)
+        for side, inside in ((below, True), (alltips - below, False)):
+            if a in side and b in side and outgroup not in side and (best is None or len(side) < len(best[0])):
+                best = (side, n, inside)
+    side, n, inside = best
+    if inside:
+        clade_edges = [m["name"] for m in nodes(n)[1:]]
+    else:
+        gone = {m["name"] for m in nodes(n)}
+        clade_edges = [m["name"] for m in every[1:] if m["name"] not in gone]
+    ambiguous = len(tree["children"]) == 2 and n["name"] in [c["name"] for c in tree["children"]]
+    out = ([n["name"]] if stem else []) + (clade_edges if clade else [])
+    return out, ambiguous
+
+
 # ----------------------------------------------------------------------------------------------- states
+def _split(family):
+    """'codon' | 'codon:2' -> (base family, genetic code table)"""
+    if family.startswith("codon"):
+        return "codon", CODES[int(family.split(":")[1]) if ":" in family else 1]
+    return family, None
+
+
 def states_of(family):
+    family, code = _split(family)
+    if family == "codon":
+        return sorted(c for c, a in code.items() if a != "*")
     if family == "nuc":
         return list(NUCS)
     if family == "dinuc":
         return [a + b for a in NUCS for b in NUCS]
-    if family == "codon":
-        return list(SENSE_CODONS)
     if family == "protein":
         return list(AMINO)
     raise ValueError(family)
 
 
 def word_length(family):
-    return {"nuc": 1, "dinuc": 2, "codon": 3, "protein": 1}[family]
+    return {"nuc": 1, "dinuc": 2, "codon": 3, "protein": 1}[_split(family)[0]]
 
 
 def compatible(word, family):
@@ -232,6 +272,7 @@ def rate_matrix(family, weighting, pi, params, exchange=None):
     weighting: None (non-stationary) | 'tuple' | 'monomer' | 'conditional';
     params: {parameter name: value};  exchange: optional {(aa, aa): S} symmetric table (empirical protein)"""
     states = states_of(family)
+    code = _split(family)[1]
     n = len(states)
     wp = word_probs(family, weighting, pi)
     idx = {s: i for i, s in enumerate(states)}
@@ -250,7 +291,7 @@ def rate_matrix(family, weighting, pi, params, exchange=None):
                 r *= exchange[(x, y)]
             for cls, val in classes:
                 if cls == "omega":
-                    if GENETIC_CODE[x] != GENETIC_CODE[y]:
+                    if code[x] != code[y]:
                         r *= val
                 elif family != "protein" and cls(x, y, p):
                     r *= val
